@@ -41,13 +41,14 @@ import (
 func init() { verifChecks["C06"] = runC06 }
 
 const (
-	c06SrcAddr = "source:6379"
-	c06TgtAddr = "target:6379"
-	c06Base    = int64(1000) // first stream offset unless the scenario says otherwise
-	c06OldLen  = 8 // commands of history h1 (the one the tool followed before the scenario starts)
-	c06Settle  = 8 * time.Second
-	c06Final   = 20 * time.Second
-	c06TagZ    = 9 // a history the source never heard of
+	c06SrcAddr  = "source:6379"
+	c06TgtAddr  = "target:6379"
+	c06Base     = int64(1000) // first stream offset unless the scenario says otherwise
+	c06OldLen   = 8           // commands of history h1 (the one the tool followed before the scenario starts)
+	c06Settle   = 8 * time.Second
+	c06Final    = 20 * time.Second
+	c06TagZ     = 9  // a history the source never heard of
+	c06CutSteps = 16 // target requests of one checkpoint re-keying (output.SetRunId -> UpdateCheckpoint), with margin
 )
 
 type c06Scenario struct {
@@ -64,9 +65,9 @@ type c06Scenario struct {
 	CacheSnap bool     `json:"cache_snap,omitempty"`
 	CacheL    int      `json:"cache_l,omitempty"`
 	CacheR    int      `json:"cache_r,omitempty"`
-	Crc       bool     `json:"crc,omitempty"`      // Channel.VerifyCrc (disk readers verify sealed segments / snapshot files when opening them)
-	Corrupt   string   `json:"corrupt,omitempty"`  // "" | log | snap: one byte of the cached log segment / snapshot file was altered on disk before the start
-	Prep      bool     `json:"prep,omitempty"`     // the source prepares a snapshot for 4 s (LF heartbeats) before +FULLRESYNC and before $<len>
+	Crc       bool     `json:"crc,omitempty"`     // Channel.VerifyCrc (disk readers verify sealed segments / snapshot files when opening them)
+	Corrupt   string   `json:"corrupt,omitempty"` // "" | log | snap: one byte of the cached log segment / snapshot file was altered on disk before the start
+	Prep      bool     `json:"prep,omitempty"`    // the source prepares a snapshot for 4 s (LF heartbeats) before +FULLRESYNC and before $<len>
 	Events    []string `json:"events,omitempty"`
 }
 
@@ -106,25 +107,39 @@ type c06Tool struct {
 }
 
 type c06Env struct {
-	t        *testing.T
-	scn      c06Scenario
-	tgt      *redisd.Server
-	src      *sourced.Server
-	hist     map[int]*sourced.History
-	nextTag  int
-	dir      string
-	ch       Channel
-	tool     *c06Tool
-	boots    int
-	events   int
-	t0       time.Time
-	base     int // target requests issued while preparing the initial state
-	marks    []string
-	exits    []string // RunLeader() returned by itself: error texts
-	applied0 *c06Pos // initial true position of the target
-	stuck    string
-	prefill  func(ch Channel) error
-	prepErr  error
+	t         *testing.T
+	scn       c06Scenario
+	tgt       *redisd.Server
+	src       *sourced.Server
+	hist      map[int]*sourced.History
+	nextTag   int
+	dir       string
+	ch        Channel
+	tool      *c06Tool
+	boots     int
+	events    int
+	t0        time.Time
+	base      int // target requests issued while preparing the initial state
+	marks     []string
+	exits     []string // RunLeader() returned by itself: error texts
+	applied0  *c06Pos  // initial true position of the target
+	stuck     string
+	prefill   func(ch Channel) error
+	prepErr   error
+	cut       *c06Cut // armed interruption of the next +FULLRESYNC attempt
+	cutMissed bool    // the interruption point does not exist in this history
+}
+
+// c06Cut interrupts a connection attempt between the +FULLRESYNC reply and the first
+// snapshot byte: the target stops answering after the k-th request the tool sends to it
+// from then on (the re-keying of the checkpoint in output.SetRunId).
+type c06Cut struct {
+	k         int
+	mode      byte // 's' process stop, 'd' target unreachable, 'e' k-th request answered with an error once
+	armedAt   time.Time
+	armed     bool
+	seen      int
+	triggered bool
 }
 
 type c06Pos struct {
@@ -260,6 +275,28 @@ func (e *c06Env) prepare() error {
 			o.RdbLeft, _ = e.ch.GetRdb(o.ChanRun)
 		}
 		p.Note = o
+		if c := e.cut; c != nil && p.Full && !c.armed {
+			c.armed, c.armedAt = true, time.Now()
+			plan := e.tgt.PlanRef()
+			if c.mode == 'e' {
+				plan.FailAt = map[int]string{o.TgtReqs + c.k: "ERR injected by the harness"}
+				c.triggered = true
+			} else if c.k == 0 {
+				plan.Park = true
+				c.triggered = true
+			} else {
+				plan.OnRequest = func(r *redisd.Req) {
+					if c.triggered || time.Since(c.armedAt) > 150*time.Millisecond {
+						return // past the re-keying: the snapshot is on its way
+					}
+					c.seen++
+					if c.seen == c.k {
+						plan.Park = true // the k-th request is still answered, nothing after it
+						c.triggered = true
+					}
+				}
+			}
+		}
 	}
 
 	// stored checkpoint (real checkpoint functions) + the data the target had applied
@@ -503,8 +540,68 @@ func (e *c06Env) settle(d time.Duration) {
 	}
 }
 
+// applyCut is the event "new:<mode><k>": the source is replaced by a master with a
+// brand-new id whose backlog contains the tool's position, and the connection attempt
+// that is answered +FULLRESYNC is interrupted after the k-th target request that follows
+// the reply: mode s = the process is stopped there and started again, d = the target is
+// unreachable from there until the tool has given the attempt up, e = the k-th request
+// fails once.
+func (e *c06Env) applyCut(ev string) error {
+	mode := ev[4]
+	k, err := strconv.Atoi(ev[5:])
+	if err != nil || (mode != 's' && mode != 'd' && mode != 'e') {
+		return fmt.Errorf("bad event %q", ev)
+	}
+	cur := e.src.Current()
+	tag := e.nextTag
+	e.nextTag++
+	h := sourced.NewHistory(tag, e.scn.base())
+	h.Append(cur.NumCmds())
+	e.hist[tag] = h
+	c := &c06Cut{k: k, mode: mode}
+	e.cut = c
+	e.src.Replace(h)
+	// the tool notices the dead connection, backs off 2 s, reconnects, gets +FULLRESYNC
+	time.Sleep(3 * time.Second)
+	synctest.Wait()
+	plan := e.tgt.PlanRef()
+	plan.OnRequest = nil
+	if !c.triggered || mode == 'e' {
+		if !c.triggered {
+			e.cutMissed = true // fewer than k requests between the reply and the snapshot
+		}
+		e.cut = nil
+		return nil
+	}
+	e.mark("attempt interrupted after target request %d of the re-keying (%c)", k, mode)
+	switch mode {
+	case 's':
+		e.tgt.KillConns()
+		plan.Park = false
+		e.restart("stopped between +FULLRESYNC and the snapshot")
+	case 'd':
+		e.tgt.Crash()
+		plan.Park = false
+		for i := 0; i < 200 && len(e.src.Replicas()) > 0; i++ {
+			time.Sleep(100 * time.Millisecond)
+			synctest.Wait()
+		}
+		e.tgt.Revive()
+		e.tgt.PlanRef().Hold = true
+		e.mark("target reachable again")
+	}
+	e.cut = nil
+	return nil
+}
+
 func (e *c06Env) apply(ev string) error {
 	e.events++
+	if strings.HasPrefix(ev, "new:") {
+		err := e.applyCut(ev)
+		c := e.src.Current()
+		e.mark("event %s -> source h%d len %d", ev, c.Tag, c.NumCmds())
+		return err
+	}
 	cur := e.src.Current()
 	switch ev {
 	case "app":
@@ -890,6 +987,12 @@ func (rec *c06Record) describe(extra map[string]interface{}) map[string]interfac
 func (rec *c06Record) judge() mc.Result {
 	e := rec.env
 	cls := rec.scn.Chan
+	for _, ev := range rec.scn.Events {
+		if strings.HasPrefix(ev, "new:") {
+			cls += ":after-cut-fullresync" // histories with an interrupted +FULLRESYNC attempt
+			break
+		}
+	}
 	viol := func(clause, sig string, extra map[string]interface{}) mc.Result {
 		return mc.Violation(clause, "C06:"+sig+":"+cls, rec.describe(extra))
 	}
@@ -943,13 +1046,18 @@ func (rec *c06Record) judge() mc.Result {
 
 		// the stored position is the position of what the target applied
 		if applied != nil {
-			ok := false
+			// (no stored position at all is fine: the tool has declared what the target holds
+			// unusable, e.g. when a snapshot of another history is about to be loaded)
+			ok, any := false, false
 			for _, off := range o.Stored {
+				if off >= 0 {
+					any = true
+				}
 				if off == applied.H.Off(applied.N) {
 					ok = true
 				}
 			}
-			if !ok {
+			if any && !ok {
 				return viol("the resume position stored on the target is not the position of what the target has applied", "stored-position-differs:"+shape, ctx)
 			}
 		}
@@ -1380,6 +1488,26 @@ func c06Histories(tier string) []c06Scenario {
 			fams = append(fams, c06Family{c06Prep(tr), [][]string{nil}})
 		case thorough && tr.CacheID == "":
 			fams = append(fams, c06Family{c06Prep(tr), plain})
+		}
+	}
+	// the source is replaced by a master with a brand-new id and overlapping offsets, and
+	// the attempt answered +FULLRESYNC is interrupted at every step of the checkpoint
+	// re-keying (process stop / target unreachable / one failing request)
+	var cuts [][]string
+	for k := 0; k <= c06CutSteps; k++ {
+		cuts = append(cuts, []string{fmt.Sprintf("new:s%d", k)}, []string{fmt.Sprintf("new:d%d", k)})
+		if k > 0 {
+			cuts = append(cuts, []string{fmt.Sprintf("new:e%d", k)})
+		}
+	}
+	for _, tr := range triples {
+		if c06Seed(tr) && tr.Src != "new" {
+			fams = append(fams, c06Family{tr, cuts})
+			if thorough && tr.Chan == "disk" {
+				v := tr
+				v.Crc = true
+				fams = append(fams, c06Family{v, cuts})
+			}
 		}
 	}
 	var out []c06Scenario
